@@ -46,6 +46,13 @@ def E(src, ml=False, thresh=None, **kw):
     return {'src': src, 'opts': kw, 'ml': ml, 'thresh': thresh}
 
 
+def EF(files, src, **kw):
+    e = E(src, **kw)
+    e['files'] = files          # written into the work directory right before the call
+    return e
+
+
+GLS2 = GLS.replace('glossar text', 'other entry').replace('plurals', 'others')
 PAIRS = [
     (E('\\newcommand{\\zzp}{Defined} A \\zzp B'), E('A \\zzp B')),
     (E('\\renewcommand{\\LaTeX}{Changed} \\LaTeX x'), E('\\LaTeX x')),
@@ -88,6 +95,10 @@ PAIRS = [
     (E('\\usepackage[poorman]{cleveref}\\YYCleverefInput{zz.sed} \\cref{zzeq} \\Cref{zzeq} a', **STAR),
      E('\\usepackage[poorman]{cleveref}\\YYCleverefInput{zz2.sed} \\cref{zzeq} \\cref{zzother} b', **STAR)),
     (E('\\begin{itemize}\\item a \\begin{itemize} \\item b', dcls='article'), E('\\begin{itemize}\\item c\\end{itemize}', dcls='article')),
+    # the same file name with new content: what was read for an earlier document must not be used again (seeded change C17-H)
+    (EF({'zzvar.glsdefs': GLS}, '\\LTinput{zzvar.glsdefs} \\gls{lab} x', **STAR), EF({'zzvar.glsdefs': GLS2}, '\\LTinput{zzvar.glsdefs} \\gls{lab} \\glspl{lab} y', **STAR)),
+    (EF({'zzvar.sed': docgen.SED}, '\\usepackage[poorman]{cleveref}\\YYCleverefInput{zzvar.sed} \\cref{zzeq}', **STAR),
+     EF({'zzvar.sed': docgen.SED.replace('eq.', 'formula')}, '\\usepackage[poorman]{cleveref}\\YYCleverefInput{zzvar.sed} \\cref{zzeq} x', **STAR)),
 ]
 POOL = [e for p in PAIRS for e in p]
 NP = len(PAIRS)
@@ -100,6 +111,9 @@ class Worker:
                                   stderr=subprocess.DEVNULL, text=True, encoding='utf-8')
 
     def call(self, entry):
+        for f, txt in (entry.get('files') or {}).items():
+            with open(os.path.join(workdir(), f), 'w', encoding='utf-8') as fh:
+                fh.write(txt)
         self.p.stdin.write(json.dumps(entry) + '\n')
         self.p.stdin.flush()
         line = self.p.stdout.readline()
